@@ -39,4 +39,9 @@ TEXT = {
         "level": "Real x/epochs keeper, MultiEpochHooks and ApplyFuncIfNoError driven over generated block-time sequences with 1-4 scripted subscribers (error, three panic kinds, out-of-gas, partial writes); timers, call trace and subscriber key spaces compared with the model after every block.",
         "note": "Keeper-level (D0) part only in this revision; the integrated part with the real hook chain of the app is added with the app monitors. Trusted: the harness store and context.",
     },
+    "C06": {
+        "technique": "runtime monitor: reference-model (lock book) refinement check of every lockup query, module balance and owner conservation after every message on a real app",
+        "level": "Generated histories of lockup messages, time jumps and matured-lock sweeps on a real OsmosisApp (real blocks; every 10th history runs the 120-block sweep cycle for real); after every operation 14 query families, LockedDenom for every used duration +-1ns, module balance and owner balance + locked are compared with the model.",
+        "note": "Trusted: the harness lock book; list queries are compared as sets (no order promised). Nine in ten histories trigger the sweep by calling the module's real EndBlocker with the height set to the next multiple of 120 instead of producing 120 blocks.",
+    },
 }
